@@ -222,25 +222,24 @@ Theorem C15_pipeline :
 Proof. exact families_reprintable. Qed.
 
 Theorem C15_pipeline_sizes :
-  length en_family = 127%nat /\ length tr_family = 31%nat /\ length (sep_family ".") = 18%nat /\
+  length en_family = 127%nat /\ length tr_family = 36%nat /\ length (sep_family ".") = 18%nat /\
   length digit_family = 10%nat /\ length digit_settings = 10%nat.
 Proof. exact families_sizes. Qed.
 
-(* ---- the known findings C15-K1 .. C15-K10 in the model: each row's line prints the stated text and that text does
+(* ---- the known findings C15-K1 .. C15-K10 (K7 repaired in /repo) in the model: each row's line prints the stated text and that text does
         not print itself again ---- *)
 Theorem C15_refuted : forall cfg lang line out, In (cfg, lang, line, out) refuted_rows ->
   (exists v, enter CK15 cfg lang line = Some (out, v)) /\ ~ Reprintable CK15 cfg lang line.
 Proof. exact refuted. Qed.
 
 Theorem C15_refuted_outputs :
-  length refuted_rows = 16%nat /\
+  length refuted_rows = 15%nat /\
   option_map fst (enter CK15 DC EN (s "-0")) = Some (s "0") /\
   option_map fst (enter CK15 (cfg_seps (s ",") (s " ")) EN (s "1 234,50")) = Some (s "235,50") /\
   option_map fst (enter CK15 DC EN [163;49;48;44;48;48]%N) = Some (s "0") /\
   option_map fst (enter CK15 DC EN (s "10,00 kr")) = Some (s "10,00 kr.") /\
   enter CK15 DC EN [] = None /\
   option_map fst (enter CK15 DC EN (s "12 months 4 days")) = Some (s "1 year 4 days") /\
-  enter CK15 DC TR (s "12:30:00 UTC") = None /\
   enter CK15 DC EN (s "13 Sep 2020 12:26:40 UTC") = None /\
   option_map fst (enter CK15 DC EN (s "1580860800")) = Some (s "1.580.860.800") /\
   option_map fst (enter CK15 DC EN (s "0xCD")) = Some (s "$0,00").
